@@ -10,12 +10,19 @@ cd /repo || exit 2
 if ! git diff --quiet; then echo "/repo is dirty"; exit 2; fi
 git apply $D/patch.diff || { echo "patch does not apply"; exit 2; }
 cd $V; ./check $P $T > $D/check_$T$TAG.out 2> $D/check_$T$TAG.err; rc=$?
+# with the patch still applied: every replay file named by a VIOLATION line must reproduce without the explorer
+rp_total=0; rp_ok=0
+for f in $(grep '^VIOLATION' $D/check_$T$TAG.out | sed -n 's/.*replay=\([^ ]*\).*/\1/p' | sort -u | head -5); do
+  rp_total=$((rp_total+1))
+  (cd $V && ./check $P --replay $f > $D/replay_$T$TAG.out 2>&1); rrc=$?
+  if [ $rrc -eq 1 ] && grep -q '^VIOLATION' $D/replay_$T$TAG.out; then rp_ok=$((rp_ok+1)); fi
+done
 git -C /repo checkout -- . 
 nv=$(grep -c '^VIOLATION' $D/check_$T$TAG.out)
 first=$(grep -m1 -A1 '^VIOLATION' $D/check_$T$TAG.out | tail -1 | cut -c1-400)
-python3 - "$D" "$T$TAG" "$rc" "$nv" "$first" <<'PY'
+python3 - "$D" "$T$TAG" "$rc" "$nv" "$first" "$rp_total" "$rp_ok" <<'PY'
 import json,sys
-d,t,rc,nv,first=sys.argv[1:]
-json.dump({"tier":t,"exit_code":int(rc),"violation_lines":int(nv),"detected":int(rc)==1 and int(nv)>0,"first_violation":first},open(f"{d}/detect_{t}.json","w"),indent=1)
+d,t,rc,nv,first,rpt,rpo=sys.argv[1:]
+json.dump({"tier":t,"exit_code":int(rc),"violation_lines":int(nv),"detected":int(rc)==1 and int(nv)>0,"first_violation":first,"replays_tried":int(rpt),"replays_reproduced":int(rpo)},open(f"{d}/detect_{t}.json","w"),indent=1)
 print(open(f"{d}/detect_{t}.json").read())
 PY
